@@ -41,6 +41,9 @@ inductive LV
   | deref (id : Nat)    -- `*p` for the pointer parameter number `id`
   | sf (f : SF)
   | cf (f : CF)
+  | listPtr             -- `setting->value.list` (only its being NULL or not is observable)
+  | listLen             -- `setting->value.list->length`
+  | elemType (k : Nat)  -- `setting->value.list->elements[k]->type`
   | bad
 deriving Repr, DecidableEq
 
@@ -54,7 +57,7 @@ deriving Repr, DecidableEq
 inductive Cast | integral | floatToInt | intToFloat | toBool | noop
 deriving Repr, DecidableEq
 
-inductive Fn | getOption | typeIsScalar
+inductive Fn | getOption | typeIsScalar | settingIsAggregate
 deriving Repr, DecidableEq
 
 inductive Expr
@@ -104,6 +107,8 @@ structure St where
   dfmt : Nat := 0
   tabw : Nat := 0
   prec : Nat := 0
+  /-- `setting->value.list`: `none` = NULL, otherwise the type fields of the children in order -/
+  kids : Option (List Nat) := none
   /-- by-value parameters and locals -/
   vars : Nat → Val := fun _ => .bad
   /-- what pointer parameter `id` points to -/
@@ -161,6 +166,15 @@ def loadLV (st : St) : LV → Val
   | .cf .defaultFormat => .i st.dfmt
   | .cf .tabWidth => .i st.tabw
   | .cf .floatPrecision => .i st.prec
+  | .listPtr => .i (if st.kids.isSome then 1 else 0)
+  | .listLen => match st.kids with
+    | some l => .i l.length
+    | none => .bad                 -- NULL dereference
+  | .elemType k => match st.kids with
+    | some l => match l[k]? with
+      | some t => .i t
+      | none => .bad               -- beyond `length`
+    | none => .bad
   | .bad => .bad
 
 def storeLV (st : St) : LV → Val → Option St
@@ -241,6 +255,7 @@ def eval (st : St) : Expr → Val
     match eval st a with
     | .i t => b2i (isScalarTy t)
     | _ => .bad
+  | .call .settingIsAggregate _ => b2i (isAggregateTy st.sty)
   | .bad => .bad
 
 inductive Res
@@ -345,6 +360,14 @@ structure Rep (n : Node) (c : Config) (st : St) : Prop where
   int32 : n.ty = T_INT ∨ n.ty = T_BOOL → sint32 st.raw = n.ival
   int64 : n.ty = T_INT64 → sint64 st.raw = n.ival
   float : n.ty = T_FLOAT → st.raw = n.fval
+
+/-- the C view of a setting's child list: NULL only when there are no children -/
+structure RepKids (n : Node) (st : St) : Prop where
+  ty : st.sty = n.ty
+  tyRange : n.ty < 65536
+  kids : st.kids = some (n.kids.map (·.ty)) ∨ (st.kids = none ∧ n.kids = [])
+  kidTy : ∀ k ∈ n.kids, k.ty < 65536
+  len : n.kids.length < 2147483648
 
 /-- everything the accessor must leave alone -/
 structure Frame (st st' : St) : Prop where
